@@ -3,6 +3,7 @@ import HcProofs.Lemmas.Config
 import HcModel.FirstStart
 import HcModel.Generated.ReachLock
 import HcModel.Generated.CfgSave
+import HcProofs.Lemmas.EntitiesRace
 /-
   C20 — identity, configuration number and discoverability persist correctly; setup-code acceptance;
   setup URI round trip.
@@ -367,5 +368,41 @@ theorem config_save_order_regenerated :
     Hc.Generated.cfgSaveOrder.idxOf "version" < Hc.Generated.cfgSaveOrder.idxOf "configHash" ∧
     Hc.Generated.cfgSaveOrder.idxOf "configHash" < Hc.Generated.cfgSaveOrder.length ∧
     Hc.Generated.cfgSaveOrder.all (· != "?") = true := by decide
+
+/-! ## the listing of the pairings while another connection removes one (F55) -/
+
+open Hc.Storage Hc.Fs in
+/-- `isPaired` (discoverability) and every pair-verify lookup go through `Entities()`: the keys are listed, then each is
+    read. When other connections REMOVE pairings in between — any number of them, at any of the reads —, the listing still
+    succeeds, returns nothing that was not stored, and returns every entity whose file was not touched: as long as one
+    controller pairing remains, the accessory does not advertise itself as unpaired (F55 repair: a vanished file is
+    skipped; before it the whole listing failed and `isPaired` read the failure as "not paired"). -/
+theorem listing_survives_concurrent_removal (C : Codec) (d0 : Dir) (at_ : Key → Dir) (l0 : List Entity)
+    (hq : entities C d0 = .entities l0)
+    (hr : ∀ k ∈ listSuffix d0 entitySuffix, OnlyRemovals d0 at_ k) :
+    ∃ l, entitiesRace C true d0 at_ = .entities l ∧ l.Sublist l0 ∧
+      ∀ k ∈ listSuffix d0 entitySuffix, lookup (at_ k) (fileName k) = lookup d0 (fileName k) →
+        ∀ e, entityForKey C d0 k = some e → e ∈ l := by
+  unfold entities at hq
+  cases ha : allSome ((listSuffix d0 entitySuffix).map (entityForKey C d0)) with
+  | none => simp [ha] at hq
+  | some l1 =>
+    simp [ha] at hq
+    subst hq
+    obtain ⟨l, hl, hsub, hmem⟩ := race_list C d0 at_ _ l1 ha hr
+    exact ⟨l, by simp [entitiesRace, hl], hsub, hmem⟩
+
+open Hc.Storage Hc.Fs in
+/-- two pairings stored; the second is removed after the keys were listed: the unrepaired listing fails as a whole (and
+    the accessory would announce itself as unpaired although the first pairing is untouched), the repaired one returns the
+    first -/
+theorem listing_concurrent_removal_unfixed_refuted :
+    let e1 : Entity := ⟨[97], [1], []⟩
+    let e2 : Entity := ⟨[98], [2], []⟩
+    let d0 : Dir := [(toEntityKey [97], modelCodec.enc e1), (toEntityKey [98], modelCodec.enc e2)]
+    let at_ : Key → Dir := fun k => if k = toEntityKey [98] then [(toEntityKey [97], modelCodec.enc e1)] else d0
+    entities modelCodec d0 = .entities [e1, e2] ∧
+    entitiesRace modelCodec false d0 at_ = .err ∧ entitiesRace modelCodec true d0 at_ = .entities [e1] := by
+  decide
 
 end Hc.Props.C20
